@@ -1,16 +1,20 @@
 (* C03 — JSON Schema serialization preserves the meaning of any element tree.
    Statements only (Proofs/SerJsonProof.v) about SerJson.v, the model of
    statham/serializers/json.py as it is after fixes f0c8af1 and aba574c.
-   PARTIAL: the keyword enumeration, "required", "properties" keys and the two repaired defects
-   are proved / refuted here; "the document accepts exactly what the tree accepts" as a single
-   theorem over all trees is NOT proved.  It is decided on every run by recomputing each
+   "The document accepts exactly what the tree accepts" is proved (C03_meaning) for reference-free
+   trees: no object class inside (classes become $ref / definitions: orderer and _from_definitions
+   are outside the theorem), the keywords of each typed element within its constructor signature,
+   distinct non-empty JSON names, no property both required and defaulted, additional* not
+   Nothing(), non-empty compositions, literals free of "_x_autotitle".  For all other trees it is
+   decided on every run by recomputing each
    generated document with SerJson.ser_doc in Coq (must equal serialize_json's output) and by
    evaluating Spec6.v (the Draft-6 reference semantics) on the resolved document against the
    element's verdicts. *)
 From Coq Require Import String.
 From Statham.Model Require Import Str Json Elem PyNum Validate Equality SerJson Spec6 Tables.
 From Statham.Generated Require Gen_signatures Gen_type_mapping.
-From Statham.Proofs Require Import Agree_tables SerJsonProof.
+From Statham.Model Require Import Plain SerFrag.
+From Statham.Proofs Require Import Agree_tables SerJsonProof JsonEqProof C01Vm C03Meaning.
 Local Open Scope string_scope.
 Local Open Scope list_scope.
 
@@ -49,3 +53,14 @@ Theorem C03_keyword_enumeration : strs_eqb (sig_names Gen_signatures.sig_Element
 Proof. exact sig_element_agree. Qed.
 Theorem C03_type_mapping : pairs_set_eqb Gen_type_mapping.json_type_mapping json_type_mapping = true.
 Proof. exact json_type_mapping_agree. Qed.
+
+(* the meaning theorem: the emitted document (read by Spec6.v6, the Draft-6 semantics of the raw
+   schema) accepts exactly the values the element tree accepts, for every value and oracle *)
+Theorem C03_meaning : forall O w e, w <> WAlways -> dsl e ->
+  forall v, jwf v -> om (build O e (Some v)) (v6 O w (ser_top true true [] e) v).
+Proof. intros O w e Hw Hd. exact (ser_meaning O w Hw e Hd). Qed.
+Print Assumptions C03_meaning.
+
+Theorem C03_fragment_checker : forall fuel e, dslb fuel e = true -> dsl e.
+Proof. exact dslb_sound. Qed.
+Print Assumptions C03_fragment_checker.
